@@ -34,4 +34,11 @@ func init() {
 		},
 		Bounds: map[string]string{"quick": "every optional element present/absent; all strings symbolic", "thorough": "same"},
 	})
+	reg(&PropSpec{ID: "C12",
+		Harnesses: []HarnessSpec{
+			{Name: "VH_C12_maybeDeflate", Replay: "native"},
+		},
+		Bounds:  map[string]string{"quick": "limit any int64 >= 0; inflated size 0..64 MiB; decoder an arbitrary predicate of the bytes", "thorough": "same"},
+		Outside: []string{"allocator behaviour: the claim is on bytes requested from the inflater", "negative MaximumDecompressedBodySize (not a size)"},
+	})
 }
